@@ -140,7 +140,7 @@ Definition step (c : cstate) (x : call) : cstate * res :=
   | CEmpty => (empty_circuit, RNone)
   | CNew its s => replace_with c (construct its s)
   | CCopy => (from_moments (moms c), RNone)
-  | CWithTags => (mkc (moms c) (Some empty_cache) no_sums, RNone)   (* Circuit(tags=...) then _moments[:] = ... *)
+  | CWithTags => (from_moments (moms c), RNone)          (* Circuit(tags=...), _moments[:] = ..., _placement_cache = None *)
   | CSlice a b => let '(s, e) := slice_range a b (length (moms c)) in
                   (from_moments (firstn (e - s) (skipn s (moms c))), RNone)
   | CAdd its => replace_with c (add c its)
@@ -239,4 +239,3 @@ Fixpoint clean (c : cstate) (h : list call) : Prop :=
   | [] => True
   | x :: r => raised_midway c x = false /\ clean (fst (step c x)) r
   end.
-Definition not_with_tags (x : call) : Prop := match x with CWithTags => False | _ => True end.
